@@ -312,20 +312,40 @@ func (sortedSet *SortedSet) forEach(min float64, max float64, offset int64, limi
 // zRange returns members which score or member within the given border
 // param limit: <0 means no limit
 func (sortedSet *SortedSet) zRange(min float64, max float64, offset int64, limit int64, desc bool, mode int) []*Item {
-	if limit == 0 || offset < 0 {
-		return make([]*Item, 0)
-	}
 	slice := make([]*Item, 0)
-	sortedSet.forEach(min, max, offset, limit, desc, func(element *Item) bool {
-		if mode&MinOpen == MinOpen && element.Score == min {
-			return true
+	if limit == 0 || offset < 0 {
+		return slice
+	}
+	// walk the closed range; offset and limit count only members that satisfy the
+	// (possibly exclusive) bounds, and the walk never leaves the range
+	var node *node
+	if desc {
+		node = sortedSet.skiplist.getLastInRange(min, max)
+	} else {
+		node = sortedSet.skiplist.getFirstInRange(min, max)
+	}
+	for node != nil {
+		score := node.Item.Score
+		if !(min <= score && score <= max) {
+			break
 		}
-		if mode&MaxOpen == MaxOpen && element.Score == max {
-			return true
+		excluded := (mode&MinOpen == MinOpen && score == min) || (mode&MaxOpen == MaxOpen && score == max)
+		if !excluded {
+			if offset > 0 {
+				offset--
+			} else {
+				slice = append(slice, &node.Item)
+				if limit > 0 && int64(len(slice)) == limit {
+					break
+				}
+			}
 		}
-		slice = append(slice, element)
-		return true
-	})
+		if desc {
+			node = node.backward
+		} else {
+			node = node.level[0].forward
+		}
+	}
 	return slice
 }
 
